@@ -420,7 +420,9 @@ def run_scenario(ctx, bins, sc, idx):
                 tg = find_targets(an, [fault])
                 if tg is None:
                     return {"sc": sc, "an": None, "skip": "step %r does not occur" % (fault,), "runs": runs[0]}
-                targets.append(tg[0])
+                # ordinal relative to this run's thread history, re-based on the reference history `pre`
+                name, ordn, win, step = tg[0]
+                targets.append((name, ordn - an["pre"].get(name, 0) + pre.get(name, 0), win, step))
                 ia = inject_args(targets)
                 if ia is None:
                     return {"sc": sc, "an": None, "skip": "more than two faults of one system call", "runs": runs[0]}
